@@ -8,6 +8,7 @@ CONSTANTS
   BodyRBufs = {0, 1, 125, 126, 256, 1024, 4096, 4097, 8192, 65536}
   BodySegs = {"one", "hdr|body", "hdr+1", "crlf", "mid", "hdr|512", "100|1023", "1024", "crlf|1", "1|2", "1000|1024", "2000", "hdr-40", "1023|1025"}
   BodyKinds = {"403", "200ok", "500close", "101other"}
+  BodyClx = {"1", "5", "1048576", "268435456", "2147483648", "max"}
   BodyURLs = {"ws", "wss"}
 CONSTRAINT Emit
 INVARIANTS InvRefines InvConnOnlyIfProven InvBadReplyIsBadHandshake InvRefusedBeforeNetwork InvRefusedNoLookup InvBodyExact InvKeyFresh InvFailureCloses InvSuccessOpenNoDeadline InvEveryOpUnderDeadline InvFirstHopHook
